@@ -26,6 +26,7 @@ type c09Sub struct {
 	unsubCall, unsubRet          int64
 	buf                          int
 	slow                         bool
+	twice                        bool // unsubscribes a second time after it has left
 	joinAfter, leaveAfter        int
 }
 
@@ -54,7 +55,7 @@ func c09Scenario(rng *rand.Rand, senders, perSender, nsubs int) (ref []int, subs
 	var wg sync.WaitGroup
 	// other subscribers
 	for i := 0; i < nsubs; i++ {
-		s := &c09Sub{buf: []int{0, 1, 10}[rng.Intn(3)], slow: rng.Intn(3) == 0,
+		s := &c09Sub{buf: []int{0, 1, 10}[rng.Intn(3)], slow: rng.Intn(3) == 0, twice: rng.Intn(3) == 0,
 			joinAfter: rng.Intn(total), leaveAfter: 1 + rng.Intn(total/2+1)}
 		subs = append(subs, s)
 		wg.Add(1)
@@ -94,6 +95,10 @@ func c09Scenario(rng *rand.Rand, senders, perSender, nsubs int) (ref []int, subs
 			tr.Unsubscribe(ch)
 			close(done)
 			s.unsubRet = tick()
+			if s.twice {
+				// a redundant second Unsubscribe (an explicit one plus a deferred one, say): returns, disturbs nobody
+				tr.Unsubscribe(ch)
+			}
 		}(s)
 	}
 	// senders
